@@ -48,7 +48,10 @@ def _patches(lf: Any) -> Optional[list]:
         from sqlfluff.core.linter.patch import generate_source_patches
 
         out = []
-        for p in generate_source_patches(lf.tree, lf.templated_file):
+        sp = lf.source_patches
+        if sp is None:
+            sp = generate_source_patches(lf.tree, lf.templated_file)
+        for p in sp:
             out.append([p.source_slice.start, p.source_slice.stop, p.fixed_raw, p.patch_category])
         return out
     except Exception as e:  # pragma: no cover
